@@ -1,4 +1,5 @@
 import PcfgVerif.Model.Omen
+import PcfgVerif.Model.OmenCache
 import PcfgVerif.Drive.Basic
 /-! Driver commands for the OMEN enumerator model. Strings travel as dot-separated code points. -/
 namespace Drive.Omen
@@ -35,6 +36,19 @@ def St.tables (st : St) : Tables :=
     ipTbl := st.ip ++ List.replicate (st.maxLevel + 1 - st.ip.length) []
     lnTbl := st.ln ++ List.replicate (st.maxLevel + 1 - st.ln.length) [] }
 
+def showTree : Option (List Item) → String
+  | none => "none"
+  | some t => if t.isEmpty then "[]" else ";".intercalate (t.map fun it => s!"{showStr it.ip}/{it.lvl}/{it.idx}")
+
+/-- `len,ip,target` -/
+def parseCall (s : String) : Option (Nat × Str × Nat) :=
+  match s.splitOn "," with
+  | [l, ip, t] =>
+    match l.toNat?, parseStr ip, t.toNat? with
+    | some l, some ip, some t => some (l, ip, t)
+    | _, _, _ => none
+  | _ => none
+
 def step (st : St) : List String → St × String
   | ["omen.new", n, ml] =>
     match n.toNat?, ml.toNat? with
@@ -61,6 +75,19 @@ def step (st : St) : List String → St × String
       match st.tables.enumLevel t lim with
       | none => (st, "raise")
       | some gs => (st, " ".intercalate (s!"n={gs.length}" :: gs.map showStr))
+    | _, _ => (st, "bad-op")
+  | "omen.fillc" :: ml :: calls =>
+    -- a sequence of memoised `_fill_out_parse_tree` calls sharing one table: results, then the table
+    match ml.toNat?, calls.mapM parseCall with
+    | some ml, some cs =>
+      let m : Model := { maxLevel := st.maxLevel, cp := st.cp }
+      let (rs, cache) := cs.foldl (fun (acc : List String × Cache) k =>
+          let r := m.fillC ml k.1 acc.2 k.2.1 k.2.2
+          (acc.1 ++ [showTree r.1], r.2)) ([], [])
+      -- dictionary view of the table: newest entry per key, sorted
+      let keys := (cache.map (·.1)).eraseDups
+      let entries := keys.map fun k => s!"{showStr k.1},{k.2.1},{k.2.2}={showTree ((cache.lookup k).getD none)}"
+      (st, " ".intercalate rs ++ " | " ++ " ".intercalate (entries.toArray.qsort (· < ·)).toList)
     | _, _ => (st, "bad-op")
   | _ => (st, "bad-op")
 
